@@ -18,8 +18,8 @@ pub struct Cell {
     pub caller: u32,
     pub trailing: bool,
     pub facade_c: bool,
-    /// other spelling of the same position: trailing `d/l/`, intermediate `d/l/.`
-    pub alt: bool,
+    /// spelling of the position: trailing `d/l`, `d/l/`, `d/l//`, `d/l///`; intermediate `d/l/file`, `d/l/.`, `d/l//file`, `d/l/./file`
+    pub alt: u8,
 }
 
 pub fn cells() -> Vec<Cell> {
@@ -30,7 +30,7 @@ pub fn cells() -> Vec<Cell> {
                 for caller in UIDS {
                     for trailing in [true, false] {
                         for facade_c in [false, true] {
-                            for alt in [false, true] {
+                            for alt in 0u8..4 {
                                 v.push(Cell { dir_mode, dir_uid, link_uid, caller, trailing, facade_c, alt });
                             }
                         }
@@ -129,7 +129,7 @@ pub fn fu_decode(idx: u64) -> (usize, usize, i32) {
 
 pub fn fu_cell(variant: usize) -> Cell {
     // sticky world-writable directory of root; variant 0: somebody else's link (refused), 1: the caller's own (allowed)
-    Cell { dir_mode: 0o1777, dir_uid: 0, link_uid: if variant == 0 { 1001 } else { 1000 }, caller: 1000, trailing: true, facade_c: false, alt: false }
+    Cell { dir_mode: 0o1777, dir_uid: 0, link_uid: if variant == 0 { 1001 } else { 1000 }, caller: 1000, trailing: true, facade_c: false, alt: 0 }
 }
 
 pub fn fu_case(uni: &UniCfg, idx: u64) -> Case {
@@ -213,14 +213,17 @@ fn run_first_use(u: &mut Universe, b: &Batch, idx: u64, st: &mut Stats) {
 pub const CF_MAX_STEP: u64 = 240;
 
 /// (mode of the root R, mode of D = R/d, owner of l2 in R, absolute body for l1?, trailing?, C facade?)
-pub fn chained_cells() -> Vec<(u32, u32, u32, bool, bool, bool)> {
+/// (.., trailing slashes: 0 none, 1 after the path, 2 at the end of l1's body, 3 both)
+pub fn chained_cells() -> Vec<(u32, u32, u32, bool, bool, bool, u8)> {
     let mut v = Vec::new();
     for (rmode, dmode) in [(0o1777u32, 0o755u32), (0o755, 0o1777), (0o1777, 0o1777), (0o755, 0o755), (0o777, 0o1777), (0o1777, 0o777)] {
         for l2_owner in [1000u32, 1001, 0] {
             for abs in [true, false] {
                 for trailing in [true, false] {
                     for c in [false, true] {
-                        v.push((rmode, dmode, l2_owner, abs, trailing, c));
+                        for sl in if trailing { 0u8..4 } else { 0u8..1 } {
+                            v.push((rmode, dmode, l2_owner, abs, trailing, c, sl));
+                        }
                     }
                 }
             }
@@ -230,7 +233,7 @@ pub fn chained_cells() -> Vec<(u32, u32, u32, bool, bool, bool)> {
 }
 
 fn run_chained(u: &mut Universe, b: &Batch, idx: u64, st: &mut Stats) -> bool {
-    let (rmode, dmode, l2_owner, abs, trailing, c) = chained_cells()[idx as usize];
+    let (rmode, dmode, l2_owner, abs, trailing, c, sl) = chained_cells()[idx as usize];
     let caller = 1000u32;
     let mut w = WorldSpec::default();
     w.push(Entry::dir("root").mode(rmode).own(0, 0));
@@ -239,15 +242,16 @@ fn run_chained(u: &mut Universe, b: &Batch, idx: u64, st: &mut Stats) -> bool {
     w.push(Entry::link("root/l2", "tgt").own(l2_owner, l2_owner));
     w.push(Entry::dir("root/d").mode(dmode).own(0, 0));
     // l1 is the caller's own link: always allowed where it sits
-    w.push(Entry::link("root/d/l1", if abs { "/l2" } else { "../l2" }).own(caller, caller));
+    let body = format!("{}{}", if abs { "/l2" } else { "../l2" }, if sl & 2 != 0 { "/" } else { "" });
+    w.push(Entry::link("root/d/l1", &body).own(caller, caller));
     let mut case = Case::new("C15", "chained", b.uni.clone());
     case.world = Some(w);
-    let mut o = OpSpec::new(Op::Resolve { path: if trailing { "d/l1".into() } else { "d/l1/file".into() }, nofollow: false });
+    let mut o = OpSpec::new(Op::Resolve { path: if trailing { format!("d/l1{}", if sl & 1 != 0 { "/" } else { "" }) } else { "d/l1/file".into() }, nofollow: false });
     if c {
         o = o.c();
     }
     case.jobs = vec![vec![OpSpec::new(Op::SetEuid { uid: caller }), o, OpSpec::new(Op::SetEuid { uid: 0 })]];
-    case.extra = json!({"root_mode": format!("{rmode:o}"), "dir_mode": format!("{dmode:o}"), "dir_uid": 0, "link_uid": l2_owner, "caller": caller, "position": "chained", "l1_body": if abs { "/l2" } else { "../l2" }});
+    case.extra = json!({"root_mode": format!("{rmode:o}"), "dir_mode": format!("{dmode:o}"), "dir_uid": 0, "link_uid": l2_owner, "caller": caller, "position": "chained", "l1_body": body, "slashes": sl});
     let out = run_case(u, &case, &mut crate::sup::NoHooks, false);
     if let Some(e) = &out.harness_error {
         st.harness_errors.push(format!("chained {idx}: {e}"));
@@ -257,7 +261,7 @@ fn run_chained(u: &mut Universe, b: &Batch, idx: u64, st: &mut Stats) -> bool {
     st.merge_runout(&out);
     st.nontrivial.insert(case.hash());
     // l1 (caller's own) is always allowed; l2 is judged in the root directory R
-    let l2_cell = Cell { dir_mode: rmode, dir_uid: 0, link_uid: l2_owner, caller, trailing, facade_c: c, alt: false };
+    let l2_cell = Cell { dir_mode: rmode, dir_uid: 0, link_uid: l2_owner, caller, trailing, facade_c: c, alt: 0 };
     let allowed = kernel_rule(1, &l2_cell);
     if let Some(r) = out.records.iter().find(|r| matches!(r.spec.op, Op::Resolve { .. })) {
         st.count(&format!("chained.{}", if allowed { "rule_allows" } else { "rule_refuses" }), 1);
@@ -409,10 +413,14 @@ pub fn case_for(uni: &UniCfg, idx: usize) -> Case {
     let c = &cells()[idx];
     let mut case = Case::new("C15", "matrix", uni.clone());
     let path = match (c.trailing, c.alt) {
-        (true, false) => "d/l",
-        (true, true) => "d/l/",
-        (false, false) => "d/l/file",
-        (false, true) => "d/l/.",
+        (true, 0) => "d/l",
+        (true, 1) => "d/l/",
+        (true, 2) => "d/l//",
+        (true, _) => "d/l///",
+        (false, 0) => "d/l/file",
+        (false, 1) => "d/l/.",
+        (false, 2) => "d/l//file",
+        (false, _) => "d/l/./file",
     };
     let f = if c.facade_c { Facade::C } else { Facade::Rust };
     case.world = Some(world_for(c));
@@ -495,7 +503,7 @@ pub fn run(u: &mut Universe, b: &Batch, st: &mut Stats) {
                 caller: e["caller"].as_u64().unwrap_or(0) as u32,
                 trailing: e["position"].as_str() == Some("trailing"),
                 facade_c: false,
-                alt: e["alt_spelling"].as_bool().unwrap_or(false),
+                alt: e["alt_spelling"].as_u64().unwrap_or(0) as u8,
             }
         } else {
             cells()[idx as usize].clone()
@@ -548,7 +556,7 @@ pub fn run(u: &mut Universe, b: &Batch, st: &mut Stats) {
 
 pub fn finalise(tier: &str, seed: u64, res: coord::CheckResult) -> i32 {
     let mut extra = Map::new();
-    extra.insert("matrix".into(), json!({"dir_modes": DIR_MODES.iter().map(|m| format!("{m:o}")).collect::<Vec<_>>(), "uids": UIDS, "positions": ["trailing (d/l, d/l/)", "intermediate (d/l/file, d/l/.)"], "facades": ["rust", "c"], "sysctl": [0, 1], "cells_per_sysctl": cells().len()}));
+    extra.insert("matrix".into(), json!({"dir_modes": DIR_MODES.iter().map(|m| format!("{m:o}")).collect::<Vec<_>>(), "uids": UIDS, "positions": ["trailing (d/l, d/l/, d/l//, d/l///)", "intermediate (d/l/file, d/l/., d/l//file, d/l/./file)"], "facades": ["rust", "c"], "sysctl": [0, 1], "cells_per_sysctl": cells().len()}));
     extra.insert("machine_sysctl".into(), json!(machine_sysctl()));
     coord::finalise(
         "C15",
